@@ -367,4 +367,6 @@ CONTRACTS = [
     Contract('blind_writes_survive_row_loads', ['pony.orm.core:Entity._db_set_', 'pony.orm.core:Entity.set', 'pony.orm.core:Entity._load_', 'pony.orm.core:Attribute.__set__',
                                                'pony.orm.core:EntityMeta._set_rowdata_' if hasattr(core.EntityMeta, '_set_rowdata_') else 'pony.orm.core:Entity._db_set_'],
              BL.configs, BL.case, [('reads_in_the_session_and_after_commit_see_the_written_values', BL.spec)], level='bounded', bound=BL.BOUND),
+    Contract('new_objects_as_query_parameters', ['pony.orm.sqlbuilding:Param.eval', 'pony.orm.core:Query._construct_sql_and_arguments', 'pony.orm.core:EntityMeta._find_in_db_', 'pony.orm.core:extract_vars'],
+             BL.new_configs, BL.new_case, [('reads_in_the_session_and_after_commit_see_the_written_values', BL.spec)], level='bounded', bound=BL.BOUND_NEW),
 ]
